@@ -161,7 +161,7 @@ theorem lock_frame_mod {s s' : State} {g : Ghost} {t : Nat} (I : Inv s g) {i : N
 
 /-- assembling the invariant after a transition -/
 theorem inv_step {s s' : State} {g g' : Ghost} {t : Nat} {l l' : Local} (I : Inv s g)
-    (hl : s.threads[t]? = some l) (m : MemStep s s' l g g')
+    (hl : s.threads[t]? = some l) (m : MemStep s s' (vcell l) g g')
     (hthr : s'.threads = s.threads.set t l') (T' : TInv s')
     (hres : s'.resizing = s.resizing ∨ (s'.resizing = true ∧ s.resizing = false))
     (hlT : isT l.pc ∨ WStep s s' g g')
@@ -173,7 +173,7 @@ theorem inv_step {s s' : State} {g g' : Ghost} {t : Nat} {l l' : Local} (I : Inv
       (nodeAt s'.heap h1).lock = (nodeAt s.heap h1).lock)
     (hselfH : ∀ h, Holds l'.pc h → h < s'.heap.length ∧ (nodeAt s'.heap h).lock = some t)
     (hselfV : ∀ id h, vcell l' = some (id, h) → getCell s' id = .node h ∧ Holds l'.pc h)
-    (hselfW : ∀ p, l'.call = some p → WalkOK s' p l'.pc) : MemStep s s' l g g' ∧ Inv s' g' :=
+    (hselfW : ∀ p, l'.call = some p → WalkOK s' p l'.pc) : MemStep s s' (vcell l) g g' ∧ Inv s' g' :=
   ⟨m, m.hinv I.heap, T', pinv_step I hl m hthr hres hlT hself hT hresz hmid,
     linv_step I hl m hthr hlock hselfH hselfV, winv_step I hl m hthr hselfW⟩
 
@@ -197,7 +197,7 @@ theorem inv_same {s s' : State} {g : Ghost} {t : Nat} {l l' : Local} (I : Inv s 
     (hmid : isMidPc l.pc → isMidPc l'.pc)
     (hselfH : ∀ h, Holds l'.pc h → Holds l.pc h)
     (hselfV : ∀ id h, vcell l' = some (id, h) → (vcell l = some (id, h) ∨ getCell s id = .node h) ∧ Holds l'.pc h)
-    (hselfW : ∀ p, l'.call = some p → WalkOK s p l'.pc) : MemStep s s' l g g ∧ Inv s' g := by
+    (hselfW : ∀ p, l'.call = some p → WalkOK s p l'.pc) : MemStep s s' (vcell l) g g ∧ Inv s' g := by
   have hcell : ∀ id, getCell s' id = getCell s id := by
     intro id; cases id <;> assumption
   refine inv_step I hl (.same hh h0 hL hH hc) hthr T' hres (Or.inr (.of_same hL hH)) (hself.cells hL hH) hT hresz ?_
@@ -254,7 +254,7 @@ theorem tinv_of_frame {s s1 s' : State} (T : TInv s1) (h1 : s1.threads = s.threa
 
 /-- **every transition preserves the structural invariant** -/
 theorem stepK_inv {s s' : State} {g : Ghost} {t : Nat} {l : Local} (I : Inv s g)
-    (hl : s.threads[t]? = some l) (hk : StepK s t l s') : ∃ g', MemStep s s' l g g' ∧ Inv s' g' := by
+    (hl : s.threads[t]? = some l) (hk : StepK s t l s') : ∃ g', MemStep s s' (vcell l) g g' ∧ Inv s' g' := by
   have T := I.thr
   have H := I.heap
   cases hk with
